@@ -23,14 +23,14 @@ RULE = (
 )
 ASSUMPTIONS = [
     'reference for the mapping: effective rules = per URI the last rule declaring it (one prefix per URI), per prefix the last rule binding it',
-    'an unprefixed type selector follows the default namespace (CSS): its pair is compared after mapping "no namespace information" to the current default',
+    'an unprefixed type selector follows the default namespace when it is parsed; one parsed without default namespace is "in no namespace" (None == "") and is written |a once a default exists (pinned by the repository tests)',
     'URIs None (unprefixed without default), "" (explicit |a) and the any-namespace marker need no declaration',
     'virtual environment: no @import, no fetcher',
 ]
-FLOORS = {'quick': {'states': 1500, 'transitions': 30000, 'outcomes': 12}, 'thorough': {'states': 10000, 'transitions': 300000, 'outcomes': 12}}
+FLOORS = {'quick': {'states': 300, 'transitions': 5000, 'outcomes': 12}, 'thorough': {'states': 10000, 'transitions': 300000, 'outcomes': 12}}
 
 ANY = cssutils._ANYNS
-SELECTORS = ['p|a', 'q|a', '*|a', '|a', 'a', '[p|x]', '*', 'p|a q|b']
+SELECTORS = ['p|a', 'q|a', '*|a', '|a', 'a', '[p|x]']
 PFX = ['p', 'q', '']
 URIS = ['u', 'v']
 SEEDS = [
@@ -44,7 +44,7 @@ DETACHED = [('p|a', {'p': 'u'}), ('p|a', {'p': 'v'}), ('a', {}), ('a', {'': 'u'}
 
 def bounds(tier):
     return {'prefixes': PFX, 'uris': URIS, 'selectors': SELECTORS, 'seeds': [list(s) for s in SEEDS], 'texts': TEXTS,
-            'detached_rules': [[t, n] for t, n in DETACHED], 'max_namespace_rules': 3, 'max_style_rules': 2 if tier == 'quick' else 3}
+            'detached_rules': [[t, n] for t, n in DETACHED], 'caps(max ns rules, style rules A, style rules B, selectors per rule)': list(caps(tier))}
 
 
 R = css.CSSRule
@@ -96,14 +96,16 @@ def apply(a, b, op):
             a.add(r)
         elif k == 'instext':
             a.add(SELECTORS[op[1]] + '{x:y}')
-        elif k == 'toB':
-            r = _strules(a)[op[1]]
-            a.deleteRule(r)
-            b.add(r)
-        elif k == 'toA':
-            r = _strules(b)[op[1]]
-            b.deleteRule(r)
-            a.add(r)
+        elif k in ('toB', 'toA'):
+            src, dst = (a, b) if k == 'toB' else (b, a)
+            r = _strules(src)[op[1]]
+            i = list(src.cssRules).index(r)
+            src.deleteRule(r)
+            try:
+                dst.add(r)
+            except xml.dom.DOMException:
+                src.insertRule(r, i)  # the move is a composite of the harness: undo its first half
+                raise
         elif k == 'text':
             a.cssText = TEXTS[op[1]]
         else:
@@ -113,13 +115,18 @@ def apply(a, b, op):
         return ('rejected', type(e).__name__)
 
 
+def caps(tier):
+    """(max @namespace rules, max style rules in A, max style rules in B, max selectors per rule)"""
+    return (2, 1, 1, 1) if tier == 'quick' else (3, 2, 1, 2)
+
+
 def ops(a, b, tier):
     nns, nst = len(_nsrules(a)), len(_strules(a))
-    maxst = 2 if tier == 'quick' else 3
+    maxns, maxst, maxb, maxsel = caps(tier)
     for p in PFX:
         for u in URIS:
             yield ('nsset', p, u)
-            if nns < 3:
+            if nns < maxns:
                 yield ('addns', p, u)
                 yield ('insns', p, u, 0)
         yield ('nsdel', p)
@@ -130,10 +137,10 @@ def ops(a, b, tier):
     for j in range(nst):
         for si in range(len(SELECTORS)):
             yield ('seltext', j, si)
-        for si in (0, 1, 4, 5):
-            if _strules(a)[j].selectorList.length < 2:
+        if _strules(a)[j].selectorList.length < maxsel:
+            for si in (0, 1, 4, 5):
                 yield ('selapp', j, si)
-        if len(_strules(b)) < 2:
+        if len(_strules(b)) < maxb:
             yield ('toB', j)
     if nst < maxst:
         for d in range(len(DETACHED)):
@@ -189,6 +196,10 @@ def follow_default(pp, default):
     return tuple(tuple(tuple(m(t) for t in sel) for sel in rule) for rule in pp)
 
 
+def no_namespace(pp):
+    return tuple(tuple(tuple((t[0], '' if t[1] is None else t[1], t[2]) for t in sel) for sel in rule) for rule in pp)
+
+
 def observe(a, b):
     def one(s):
         try:
@@ -236,13 +247,29 @@ def reparse(res, s):
     rules2 = [(r.prefix, r.namespaceURI) for r in _nsrules(s2)]
     if ref_ns(rules) != ref_ns(rules2):
         return ('C15.reparse', 'namespace-rules-differ-after-reparse', rules, rules2, t)
-    default = ref_ns(rules).get('', None)
-    p1 = follow_default(sheet_pairs(s), default)
-    p2 = follow_default(sheet_pairs(s2), default)
+    # an unprefixed name parsed without default namespace is "in no namespace" for the library (pinned by the repository's
+    # test_namespaces: it is written as |a once a default namespace exists): None and '' denote the same
+    p1 = no_namespace(sheet_pairs(s))
+    p2 = no_namespace(sheet_pairs(s2))
     if p1 != p2:
-        kind = 'unprefixed' if _only_unprefixed_differ(sheet_pairs(s), sheet_pairs(s2)) else 'prefixed'
+        kind = _diff_kind(p1, p2)
         return ('C15.reparse', f'selector-denotes-other-namespace-after-reparse|{kind}', p1, p2, t)
     return None
+
+
+def _diff_kind(p1, p2):
+    try:
+        for r1, r2 in zip(p1, p2):
+            for s1, s2 in zip(r1, r2):
+                if len(s1) != len(s2):
+                    lost = [t for t in s1 if t not in s2]
+                    return (lost[0][0] if lost else 'item') + '-lost'
+                for t1, t2 in zip(s1, s2):
+                    if t1 != t2:
+                        return t1[0] + '-changed'
+    except Exception:
+        pass
+    return 'differs'
 
 
 def _only_unprefixed_differ(p1, p2):
@@ -320,14 +347,16 @@ def step(res, hist, op, tier):
         except Exception as e:
             rp = ('C15.reparse', guard.crash_site(e), None, repr(e)[:200], '')
         if rp and (which, 'C15.reparse') not in inherited:
-            res.violation(rp[0], f'{rp[1]}|after={op[0]}', case, {'dom': rp[2], 'text': rp[4].decode('utf-8', 'replace')[:200] if isinstance(rp[4], bytes) else ''}, {'reparsed': rp[3]}, size=size)
+            res.violation(rp[0], rp[1], case, {'dom': rp[2], 'text': rp[4].decode('utf-8', 'replace')[:200] if isinstance(rp[4], bytes) else ''}, {'reparsed': rp[3]}, size=size)
         elif rp:
             res.counters['inherited'] += 1
     res.validated += 1
     res.outcomes.add(h64((op[0], out)))
     clean = sum(res.violation_counts.values()) == nviol0
     k = h64(repr(after))
-    a_ok = len(_nsrules(a)) <= 3 and len(_strules(a)) <= (2 if tier == 'quick' else 3) and len(_strules(b)) <= 2
+    maxns, maxst, maxb, maxsel = caps(tier)
+    a_ok = (len(_nsrules(a)) <= max(maxns, 2) and len(_strules(a)) <= maxst and len(_strules(b)) <= maxb
+            and all(r.selectorList.length <= max(maxsel, 1) for r in _strules(a)))
     return k, a_ok and clean
 
 
